@@ -87,7 +87,7 @@ def trees(draw):
     # .gitignore files
     alld = sorted(dirs)
     for _ in range(draw(st.integers(0, 3))):
-        where = draw(st.sampled_from([""] + alld)) if alld else ""
+        where = draw(st.sampled_from(["", ""] + alld)) if alld else ""
         below = [d for d in alld if d.startswith(where) and d != where]
         entries = []
         for _ in range(draw(st.integers(1, 3))):
@@ -100,7 +100,11 @@ def trees(draw):
                     d = "/" + d
                 entries.append(d + ("/" if kind == "anchored-slash" else ""))
             elif kind == "bare" and below:
-                entries.append(draw(st.sampled_from(below)).rstrip("/").split("/")[-1] + draw(st.sampled_from(["", "/"])))
+                # prefer directories that are not direct children of the .gitignore's directory: a bare entry (with or
+                # without a trailing slash) applies at every level below, which is what distinguishes it from an anchored one
+                deep = [d for d in below if d[len(where):].rstrip("/").count("/") >= 1]
+                pick = draw(st.sampled_from(deep)) if deep and draw(st.integers(0, 3)) else draw(st.sampled_from(below))
+                entries.append(pick.rstrip("/").split("/")[-1] + draw(st.sampled_from(["", "/"])))
             elif kind == "file-anchored":
                 fs = [f for f in files if f.startswith(where) and "/" not in f[len(where):] and not f.endswith("__init__.py")]
                 if fs:
@@ -266,6 +270,14 @@ def run_case(ctx, case):
                 ctx.nontriv([case["files"], case["gitignores"], q])
             if ign_dirs or ign_files:
                 ctx.cls("has-ignored-place")
+            for gi, gtext in case["gitignores"].items():
+                w_ = gi[:-len(".gitignore")]
+                for ln in gtext.splitlines():
+                    if ln and not ln.startswith("#") and "/" not in ln.rstrip("/"):
+                        if any(d.startswith(w_) and d[len(w_):].rstrip("/").count("/") >= 1
+                               and d.rstrip("/").split("/")[-1] == ln.rstrip("/") and any(f.startswith(d) and s in t for f, t in case["files"].items())
+                               for d in ign_dirs):
+                            ctx.cls("bare-entry%s-ignores-deeper-dir-holding-the-word" % ("-with-slash" if ln.endswith("/") else ""))
         # Script.search agrees with filtering get_names
         for rel, text in list(case["files"].items())[:3]:
             sc = boot.fresh_script(text, path=str(root / rel), project=project)
